@@ -53,6 +53,33 @@ func aolRules(p *Prog, r *Report, clause string, want func(tag string) bool) *ao
 				}
 			}
 		}
+		// the four prefixes are constant, pairwise distinct and none is a prefix of another
+		type pv struct {
+			fam string
+			val []byte
+		}
+		var pvs []pv
+		for _, f := range fams {
+			pp, name := splitGlobal(m.prefixOf[f])
+			val, ok, re, pos := globalByteSliceLit(p, pp, name)
+			if !ok || re > 0 || len(val) == 0 {
+				r.Fail(kp("CONST", "prefix:"+f), "each family prefix is a non-empty byte-slice literal that is never reassigned", p.Pos(pos),
+					fmt.Sprintf("prefix variable %s: literal=%v reassignments=%d value=%v", m.prefixOf[f], ok, re, val))
+				continue
+			}
+			pvs = append(pvs, pv{f, val})
+		}
+		for i := range pvs {
+			for j := range pvs {
+				if i >= j {
+					continue
+				}
+				a, b := pvs[i].val, pvs[j].val
+				clash := strings.HasPrefix(string(a), string(b)) || strings.HasPrefix(string(b), string(a))
+				r.Check(!clash, kp("CONST", "prefix-free:"+pvs[i].fam+"|"+pvs[j].fam), "family prefixes are prefix-free, so entries of one family can never be read as another's", "x/aol/types/keys.go",
+					fmt.Sprintf("%x vs %x", a, b), fmt.Sprintf("prefix of %s (%x) and of %s (%x) overlap: the families share store keys", pvs[i].fam, a, pvs[j].fam, b))
+			}
+		}
 		r.Floor("aol-accessors", n, 17)
 		r.Floor("aol-listing-iterations", len(m.listings), 2)
 		// positive control + expected-zero rule for deletes
